@@ -149,7 +149,7 @@ PROPS["C25"] = dict(
 
 PROPS["C17"] = dict(
     level="proof",
-    text="target faults are contained: every vrl call site of the embedder's Target (Query::resolve, assignment Target::insert, del, exists, Runtime::resolve) verified by Verus on the extracted real body against a target whose every answer (value, nothing, fault) is arbitrary",
+    text="target faults are contained: every vrl call site of the embedder's Target (Query::resolve, assignment Target::insert, del, exists, unnest, Runtime::resolve) verified by Verus on the extracted real body against a target whose every answer (value, nothing, fault) is arbitrary",
     verus=["v_target_ops"],
     kani=[],
     scans=["target_call_sites"],
@@ -157,7 +157,7 @@ PROPS["C17"] = dict(
              "'a rejected write leaves the target unchanged' is the embedder's obligation; what vrl owes (one operation, no retry, no write elsewhere, no panic) is what is proved",
              "std: Result::ok, Option::flatten (assume_specification), Option::cloned/unwrap_or/is_some (vstd)",
              "Context::new bundles the three borrows; running the program inside Runtime::resolve is the child contract resolve_with"],
-    not_covered=["unnest (target_get_mut) - frame scan lists it; no contract yet", "metadata vs event prefix handling inside the embedder"],
+    not_covered=["metadata vs event prefix handling inside the embedder", "unnest_root (value-level clone/remove/insert) is opaque"],
     technique="contract-based deductive verification (Verus on mechanically extracted real bodies)",
 )
 
